@@ -464,6 +464,9 @@ func genDoc(r *vlib.Rng) docSrc {
 		if r.Chance(1, 4) { // a percentage, on an element whose descendants have other font sizes
 			style += ";" + pctDecl(r)
 		}
+		if r.Chance(1, 5) { // decorations propagate to the descendants and to the anonymous boxes
+			style += ";" + decoDecl(r)
+		}
 		class := ""
 		if r.Bool() {
 			class = fmt.Sprintf(` class="k%d"`, r.Intn(4))
@@ -568,6 +571,7 @@ type snode struct {
 	rel    []pr.KnownProp // declared with a value relative to the font size / the font (em, rem, ex, ch)
 	page   bool           // a page context
 	met    string // Coq term of type option metrics
+	copyOf int    // >= 0: this style object is nodes[copyOf].style.Copy() (the tree node is a duplicate of that node)
 }
 
 type world struct {
@@ -655,7 +659,7 @@ func (w *world) cascTerm(style pr.ElementStyle, p pr.KnownProp, v pr.DeclaredVal
 }
 
 func (w *world) addNode(style pr.ElementStyle, parent int, desc string) int {
-	nd := &snode{style: style, parent: parent, desc: desc, met: "None"}
+	nd := &snode{style: style, parent: parent, desc: desc, met: "None", copyOf: -1}
 	casc, isComputed := tree.VerifC04Cascaded(style)
 	nd.anon = !isComputed
 	var keys []pr.PropKey
@@ -779,6 +783,53 @@ func (w *world) addAnon(parent int) int {
 	return w.addNode(st, parent, "anonymous("+w.nodes[parent].desc+")")
 }
 
+// dst := nodes[src].style.Copy(): what boxes.wrapTable, the flex layout, columns ... do in the
+// middle of a layout.  The new style object is built from the same inputs as its source.
+func (w *world) addCopy(src int) int {
+	st := w.nodes[src].style.Copy()
+	ni := w.addNode(st, w.nodes[src].parent, "copy("+w.nodes[src].desc+")")
+	w.nodes[ni].copyOf = src
+	w.nodes[ni].page = w.nodes[src].page
+	return ni
+}
+
+// the node a (copy of a copy of a ...) copy duplicates
+func (w *world) original(n int) int {
+	for w.nodes[n].copyOf >= 0 {
+		n = w.nodes[n].copyOf
+	}
+	return n
+}
+
+// what the box tree / the drawing code ask of an anonymous box (line boxes, text boxes,
+// anonymous table parts): the decorations propagated from the parent, the page, inherited
+// text properties, box properties that take their initial value
+var anonProps = []pr.KnownProp{pr.PTextDecorationLine, pr.PTextDecorationColor, pr.PTextDecorationStyle,
+	pr.PTextDecorationColor, pr.PTextDecorationStyle, pr.PPage, pr.PColor, pr.PFontSize, pr.PDisplay, pr.PBorderTopWidth,
+	pr.PWidth, pr.PFontWeight, pr.PLineHeight, pr.PVerticalAlign, pr.PMarginLeft}
+
+// text decorations: line / style / color, through the shorthand and the longhands (propagated
+// to the descendants and to the anonymous boxes, not inherited)
+func decoDecl(r *vlib.Rng) string {
+	color := vlib.Pick(r, []string{"red", "#123", "rgb(1, 2, 3)", "blue", "currentColor", "transparent"})
+	style := vlib.Pick(r, []string{"wavy", "dashed", "dotted", "double", "solid"})
+	line := vlib.Pick(r, []string{"underline", "overline", "line-through", "underline overline", "none"})
+	switch r.Intn(6) {
+	case 0:
+		return "text-decoration:" + line + " " + style + " " + color
+	case 1:
+		return "text-decoration-color:" + color
+	case 2:
+		return "text-decoration-style:" + style
+	case 3:
+		return "text-decoration-line:" + line + ";text-decoration-style:" + style
+	case 4:
+		return "text-decoration:" + color + " " + line
+	default:
+		return "text-decoration-color:" + color + ";text-decoration-style:" + style + ";text-decoration-line:" + line
+	}
+}
+
 type getRes struct {
 	term  string
 	panic string
@@ -798,6 +849,8 @@ func (w *world) get(n int, p pr.KnownProp) (out getRes) {
 type lateStep struct {
 	page   *utils.PageElement
 	parent int // anonymous box
+	isCopy bool
+	src    int // copy: the source node
 }
 
 func optN(i int) string {
@@ -1014,6 +1067,62 @@ func runDoc(seed uint64, corpus string) vlib.Case {
 			late = append(late, lateStep{parent: parent})
 			ops = append(ops, fmt.Sprintf("K %d true", ni))
 			tags["anonymous"] = true
+			// what is asked of a new anonymous box, in some order
+			for j, m := 0, r.Intn(5); j < m; j++ {
+				p := vlib.Pick(r, anonProps)
+				if anc := w.nodes[parent]; r.Chance(1, 4) && len(anc.props) > 0 {
+					p = vlib.Pick(r, anc.props)
+				}
+				doGet(1, ni, p)
+			}
+		case k < 13:
+			// a style is copied at some point of the history (table wrappers, flex items,
+			// columns, leaders); the copy must compute what the original would
+			src := r.Intn(len(w.nodes))
+			for try := 0; try < 3 && len(w.nodes[src].rel) == 0; try++ { // rather one with font-relative declarations
+				src = r.Intn(len(w.nodes))
+			}
+			if w.nodes[src].parent < 0 {
+				// the model's trees have one parentless node (wf_tree): the root style is not copied
+				if len(w.nodes) < 2 {
+					continue
+				}
+				src = 1
+			}
+			func() {
+				defer func() {
+					if rec := recover(); rec != nil {
+						ops = append(ops, fmt.Sprintf("C %d %d false", src, len(w.nodes)))
+						tags["copy-panic"] = true
+						panics++
+					}
+				}()
+				ni := w.addCopy(src)
+				late = append(late, lateStep{isCopy: true, src: src})
+				ops = append(ops, fmt.Sprintf("C %d %d true", src, ni))
+				tags["copy"] = true
+				if w.nodes[ni].anon {
+					tags["copy-anonymous"] = true
+				}
+				nd := w.nodes[ni]
+				for j, m := 0, r.Intn(6); j < m; j++ {
+					var p pr.KnownProp
+					switch c := r.Intn(6); {
+					case c < 3 && len(nd.rel) > 0:
+						p = vlib.Pick(r, nd.rel)
+					case c < 4 && len(nd.props) > 0:
+						p = vlib.Pick(r, nd.props)
+					case nd.anon:
+						p = vlib.Pick(r, anonProps)
+					default:
+						p = randProp(r)
+					}
+					doGet(1, ni, p)
+					if r.Chance(1, 3) { // and the original, after its copy
+						doGet(1, src, p)
+					}
+				}
+			}()
 		default:
 			var n int
 			var p pr.KnownProp
@@ -1077,9 +1186,12 @@ func runDoc(seed uint64, corpus string) vlib.Case {
 						okShadow = false
 					}
 				}()
-				if st.page != nil {
+				switch {
+				case st.page != nil:
 					sh.addPage(*st.page)
-				} else {
+				case st.isCopy:
+					sh.addCopy(st.src)
+				default:
 					sh.addAnon(st.parent)
 				}
 			}()
@@ -1087,13 +1199,13 @@ func runDoc(seed uint64, corpus string) vlib.Case {
 		if okShadow && len(sh.nodes) == len(w.nodes) {
 			// font metrics of the font each style selects: measured on the copy, with no cache at all
 			for i, nd := range w.nodes {
-				if !nd.anon {
+				if !nd.anon && nd.copyOf < 0 {
 					nd.met = measure(sh.nodes[i].style, sh.fonts)
 				}
 			}
 			for i, nd := range w.nodes {
 				casc, ok := tree.VerifC04Cascaded(nd.style)
-				if !ok {
+				if !ok || nd.copyOf >= 0 { // a copy: the recorded inputs of the node it duplicates (below)
 					continue
 				}
 				for _, p := range nd.props {
@@ -1140,6 +1252,12 @@ func runDoc(seed uint64, corpus string) vlib.Case {
 		kind := "KElem"
 		if nd.anon {
 			kind = "KAnon"
+		}
+		if nd.copyOf >= 0 {
+			// built from the same parent style, the same cascaded declarations, the same font: the
+			// node of the source (copies come after their source)
+			nodeTerms = append(nodeTerms, nodeTerms[w.original(nd.copyOf)])
+			continue
 		}
 		nodeTerms = append(nodeTerms, fmt.Sprintf("mkNode %s %s %s %s %s", optN(nd.parent), kind, vlib.List(nd.decls), vlib.List(nd.orc), nd.met))
 		nDecl += len(nd.decls)
